@@ -308,17 +308,56 @@ func (rn *runner) battery(in, mir *rinst, silent bool, frame bool) {
 				kv = append(kv, "hasMirror", "false")
 			}
 			line := obj(kv...)
+			fresh := true
 			if !rn.nodedup {
 				dk := key + line
 				if rn.seen[dk] {
-					continue
+					fresh = false
 				}
 				rn.seen[dk] = true
 			}
-			rn.emit(line)
+			if fresh {
+				rn.emit(line)
+			}
+			if rn.pool.RT && o.kind == "route" && o.panicKind == "none" && (m == "GET" || m == "POST") {
+				for _, strict := range []bool{false, true} {
+					rn.urlEvent(in, nil, &Op{Op: "url", Pat: o.pat, Strict: strict, Params: SMap(o.params)}, key, p.Path, true)
+				}
+			}
 		}
 	}
 	in.prev = newPrev
+	if silent {
+		return
+	}
+	for i := range rn.pool.URLs {
+		rn.urlEvent(in, mir, &rn.pool.URLs[i], key, "", false)
+	}
+}
+
+// urlEvent performs one URL call and records it; rtpath != "" marks a round trip of a dispatched request.
+func (rn *runner) urlEvent(in, mir *rinst, op *Op, key, rtpath string, isRT bool) {
+	val, ok, res := in.doURL(op, false)
+	pat, _ := desugar(op)
+	kv := []string{"ev", js("url"), "via", js(op.Key), "strict", jbool(op.Strict), "pat", js(op.Pat), "params", jmap(op.Params),
+		"chain", chainJSON(op.Chain), "isres", jbool(op.Res), "ok", jbool(ok), "val", js(val), "res", js(res), "re", reTable(pat)}
+	if isRT {
+		kv = append(kv, "rtpath", js(rtpath))
+	}
+	if mir != nil {
+		v2, ok2, r2 := mir.doURL(op, true)
+		kv = append(kv, "hasMirror", "true", "mok", jbool(ok2), "mval", js(v2), "mres", js(r2))
+	} else {
+		kv = append(kv, "hasMirror", "false")
+	}
+	line := obj(kv...)
+	if !rn.nodedup {
+		if rn.seen["U"+key+line] {
+			return
+		}
+		rn.seen["U"+key+line] = true
+	}
+	rn.emit(line)
 }
 
 func newRinst(cfg *Cfg) (*rinst, string) {
@@ -428,17 +467,7 @@ func (rn *runner) runRouterCase(c *Case) {
 			}
 			rn.emit(obj(kv...))
 		case "url":
-			val, ok, res := in.doURL(op, false)
-			pat, _ := desugar(op)
-			kv := []string{"ev", js("url"), "via", js(op.Key), "strict", jbool(op.Strict), "pat", js(op.Pat), "params", jmap(op.Params),
-				"chain", chainJSON(op.Chain), "isres", jbool(op.Res), "ok", jbool(ok), "val", js(val), "res", js(res), "re", reTable(pat)}
-			if mir != nil {
-				v2, ok2, r2 := mir.doURL(op, true)
-				kv = append(kv, "hasMirror", "true", "mok", jbool(ok2), "mval", js(v2), "mres", js(r2))
-			} else {
-				kv = append(kv, "hasMirror", "false")
-			}
-			rn.emit(obj(kv...))
+			rn.urlEvent(in, mir, op, fmt.Sprint("op", i, c.ID), "", false)
 		case "syntax":
 			var ok bool
 			res, _ := guard(func() { ok = mux.CheckSyntax(op.Pat) == nil })
